@@ -108,12 +108,20 @@ def run(chk):
     for s in cg.sites[pm.qualname]:
         if s.kind == 'call' and any(t.kind == 'func' and t.func.qualname == 'validation.Validator.validate' for t in s.targets):
             bctx = forwarding.branch_context(s.node)
-            if 'message_profile is None [false]' in bctx:
+            t = [t for t in s.targets if t.kind == 'func'][0]
+            b, extra, _, _ = te.bind(s.node, t)
+            r = b.get('reference')
+            # the reference handed over is message_profile[...] -- directly on the profile branch, or through a local that
+            # holds it when a profile was given (and None otherwise)
+            from .pat import choice_assignments
+            via_local = False
+            if isinstance(r, ast.Name):
+                for tst, tgt, a_, b_ in choice_assignments(pm.node):
+                    if tgt == r.id and 'message_profile' in norm(tst) and any('message_profile[' in norm(v_) for v_ in (a_, b_)):
+                        via_local = True
+            if 'message_profile is None [false]' in bctx or via_local:
                 found = True
-                t = [t for t in s.targets if t.kind == 'func'][0]
-                b, extra, _, _ = te.bind(s.node, t)
-                r = b.get('reference')
-                good = r is not None and 'message_profile' in norm(r)
+                good = r is not None and ('message_profile' in norm(r) or via_local)
                 chk.ob('C18-V', 'parse_message(force_validation) validates against the profile', good,
                        'the profile branch of force_validation does not pass message_profile[...] to the validator',
                        '%s:%d' % (pm.module.relpath, s.lineno), key='C18-V|parse_message.force_validation')
